@@ -98,3 +98,38 @@ def routing_script(prog, rounds: int = 3, gate: bool = True) -> str:
             else:
                 lines += release_by(holder) + claim_for(other)
     return '\n'.join(lines) + '\n'
+
+
+def nested_script(prog) -> str:
+    """The wrapped component raises an out-event of a provides port while it handles an
+    in-event of that port (what Dezyne components do all the time: the out-event is part of
+    handling the in-event).  On a multi-client port the in-events are those of the claim
+    holder - the release last, then once more for the next holder; the claim itself is left
+    out (who holds the claim while it is being decided is not stated)."""
+    mci = mc_info(prog)
+    lines = preamble(prog) + ['final']
+    plan = []
+    for pname in prog.info['provides']:
+        itf = prog.gen.interface_by_fqn(prog.info['ports'][pname]['itf'])
+        ins = [e for e in itf.events if e.direction == 'in']
+        outs = [e for e in itf.events if e.direction == 'out']
+        if not ins or not outs:
+            continue
+        mc_port = bool(mci and mci['port'] == pname)
+        if mc_port:
+            ins = [e for e in ins if e.name not in (mci['claim'], mci['release'])] + \
+                  [e for e in ins if e.name == mci['release']]
+        plan.append((pname, ins, outs, mc_port))
+    for holder in ('A', 'B'):
+        if mci:
+            lines += [f'reply comp/{mci["port"]}/{mci["claim"]} {mci["grant"]}',
+                      f'call {mci["port"]}/{mci["claim"]} {holder}', 'quiesce']
+        for pname, ins, outs, mc_port in plan:
+            for idx, inev in enumerate(ins):
+                out = outs[(idx + (holder == 'B')) % len(outs)]
+                lines += [f'nest comp/{pname}/{inev.name} {pname}/{out.name}',
+                          f'call {pname}/{inev.name}' + (f' {holder}' if mc_port else ''),
+                          'quiesce']
+        if not mci:
+            break
+    return '\n'.join(lines) + '\n'
